@@ -365,6 +365,21 @@ static void normalise_process(int argc, char** argv)
     size_t off = (size_t) snprintf(packed, sizeof(packed), "VH_ARGS=");
     for (int i = 1; i < argc; i++)
     {
+        // paths become absolute: the re-exec'd process runs in "/" (pika looks for ini files in the
+        // current directory, so the cwd would otherwise be an input of the address space)
+        static char absbuf[4096];
+        bool is_path = i > 1 &&
+            (!strcmp(argv[i - 1], "--out") || !strcmp(argv[i - 1], "--replay-txt") ||
+                !strcmp(argv[i - 1], "--tmpdir"));
+        if (is_path && argv[i][0] != '/')
+        {
+            char cwd[2048];
+            if (getcwd(cwd, sizeof(cwd)))
+            {
+                snprintf(absbuf, sizeof(absbuf), "%s/%s", cwd, argv[i]);
+                argv[i] = absbuf;
+            }
+        }
         size_t l = strlen(argv[i]);
         if (off + l + 2 >= sizeof(packed) - 1)
         {
@@ -377,6 +392,7 @@ static void normalise_process(int argc, char** argv)
     }
     while (off < sizeof(packed) - 1) packed[off++] = ' ';
     packed[off] = 0;
+    if (chdir("/") != 0) {}
     char arg0[] = "runner";
     char* nargv[] = {arg0, nullptr};
     char* nenv[] = {packed, nullptr};
